@@ -43,6 +43,15 @@ CLAIMED = {
  "C15": ("model_checking", "5 C15",
    "Context.tla transcribes ContextTracker (per-manager depth counter and depth->saved dict, enter/exit/decorator, turn_memory_guarding_*). TLC checks ScopedRestore / EnterSets / DepthConsistent / DefaultOutside exhaustively to nesting depth 7 (~670k states); every behaviour of bounded length is replayed with real with-blocks, decorators and raising bodies, comparing both switches after every event; programs executed inside random nestings are validated against Ref.tla (untracked ops record nothing, keep gradients, write in place; backward is a no-op).",
    "explicit TLA+ mechanism model checked exhaustively with TLC; every enumerated behaviour replayed on the implementation; trace validation of programs run inside scopes"),
+ "C16": ("model_checking", "5 C16",
+   "tables/Layers.tla: transcription of sliding_window_view's guards and stride arithmetic and of the acceptance logic of conv_nd / max_pool next to the documented validity predicate and the documented formulas. TLC enumerates every configuration within the bounds (1-D and 2-D windows, leading dims, stride, padding, dilation), proves InBounds / Formula / AcceptsExactly / ConvAcceptsExactly on the table and emits the expected outcome; the harness executes every configuration twice (contiguous and strided input) and compares accept/reject, shape, read-only flag, memory bounds and every output value exactly. Softmax / losses / batchnorm / GRU numerics are outside the table (DESIGN section 9).",
+   "explicit TLA+ decision table checked with TLC (exhaustive enumeration); every configuration executed on the implementation"),
+ "C17": ("model_checking", "5 C17",
+   "tables/Construct.tla transcribes tensor() / Tensor.__init__ / astensor / asarray / copy / astype as a decision table over input kind x dtype x constant x copy x ndmin x entry point; TLC checks CopyByDefault / ReuseWhenPossible / AstensorIdentity / Detached / RejectNonReal on every cell and emits the predicted outcome (raises, identity, memory sharing, dtype, constant, creator/grad/base); the harness executes every cell, including the later-mutation probe. Creation routines are compared three-way with NumPy for every routine x dtype x shape x variant cell.",
+   "explicit TLA+ decision table checked with TLC (exhaustive); every cell executed on the implementation"),
+ "C18": ("model_checking", "5 C18",
+   "Save/load table (dtype x shape incl. 0-d and empty x constant x gradient presence incl. views x str/Path/file object): the round trip must reproduce data, dtype, shape and the gradient's value/shape/dtype (or None), and saving must leave the source tensor, its gradient, graph position and the lock tables untouched.",
+   "explicit TLA+ decision table checked with TLC (exhaustive); every cell executed on the implementation"),
 }
 checks = []
 for p in props:
